@@ -64,7 +64,9 @@ def build_seq(pos, cigar, mut):
 
 
 def rd(name, pos, cigar, mut=None, flag=0, mapq=60, rg="rgA"):
-    return dict(name=name, contig=CONTIG, pos=pos, cigar=cigar, seq=build_seq(pos, cigar, mut or {}), flag=flag, mapq=mapq, rg=rg)
+    # base quality differs between reads (and between the mates of a pair): 17, 23, 30 or 37 depending on name and start
+    qual = (17, 23, 30, 37)[(sum(ord(c) for c in name) + pos) % 4]
+    return dict(name=name, contig=CONTIG, pos=pos, cigar=cigar, seq=build_seq(pos, cigar, mut or {}), flag=flag, mapq=mapq, rg=rg, qual=qual)
 
 
 def alphabet():
@@ -178,6 +180,22 @@ def expected(aligns, mq, sd, sq, ss, idf):
             elif row[j] != b:
                 row[j] = "N"
     return {k: {q: "".join(v) for q, v in d.items()} for k, d in out.items()}
+
+
+def expected_quals(aligns, mq, sd, sq, ss, idf):
+    """{sample_key: {qname: [summed base quality of the agreeing observations per SNV]}} (0 where nothing was observed)"""
+    key_of = {rg: (sm if idf == "SM" else rg) for rg, sm in RGS}
+    out = {k: {} for k in key_of.values()}
+    for i in sorted(range(len(aligns)), key=lambda i: aligns[i]["pos"]):
+        a = aligns[i]
+        if not passes(a, mq, sd, sq, ss):
+            continue
+        row = out[key_of[a["rg"]]].setdefault(a["name"], [0] * len(SNV_POS))
+        w = synth.walk(a, SNV_POS)
+        for j, p_ in enumerate(SNV_POS):
+            if w[p_] != "-":
+                row[j] += a["qual"]
+    return out
 
 
 def warm(tier):
@@ -327,6 +345,7 @@ def job_bams(job):
                 try:
                     got = extract_read_variants(loc, f, samples=samples, id=idf, min_quality=mq, skip_duplicates=sd, skip_qcfail=sq,
                                                 skip_supplementary=ss, read_dicts=True)
+                    gotq = {k: {q: [int(x) for x in v[1]] for q, v in dd.items()} for k, dd in got.items()}
                     got = {k: {q: "".join(v[0]) for q, v in dd.items()} for k, dd in got.items()}
                     mat = extract_read_variants(loc, f, samples=samples, id=idf, min_quality=mq, skip_duplicates=sd, skip_qcfail=sq,
                                                 skip_supplementary=ss)
@@ -337,6 +356,14 @@ def job_bams(job):
                 if got != want:
                     r.violation("extract|letters=%s|id=%s" % (labels, idf), "read dict %r, filtered pileup %r (%s)" % (got, want, tag), payload)
                     continue
+                # base qualities: a called cell carries the summed quality of the (agreeing) observations behind it
+                wq = expected_quals(aligns, mq, sd, sq, ss, idf)
+                for k, dd in got.items():
+                    for q, chars in dd.items():
+                        bad = [j for j, c in enumerate(chars) if c not in "-N" and gotq[k][q][j] != wq[k][q][j]]
+                        if bad:
+                            r.violation("extract-quals|letters=%s|id=%s" % (labels, idf), "read %s of %s: base qualities %r, observations behind the calls %s sum to %r (%s)" % (
+                                q, k, gotq[k][q], chars, wq[k][q], tag), payload)
                 wantm = {k: list(v.values()) for k, v in want.items()}
                 if {k: sorted(v) for k, v in mat.items()} != {k: sorted(v) for k, v in wantm.items()}:
                     r.violation("extract-matrix|letters=%s|id=%s" % (labels, idf), "matrix rows %r, filtered pileup %r (%s)" % (mat, wantm, tag), payload)
@@ -351,9 +378,12 @@ def job_bams(job):
                 for sd in (True, False):
                     for sq in (True, False):
                         for ss in (True, False):
+                            # base qualities enter the encoding only on request (two of the sixteen flag combinations are run that way)
+                            phred = (sd == sq == ss) and mq == THR
                             prog = baseclass.program(vcf="", ref=fa, samples=names, sample_bams=sample_bams, sample_ploidy={k: 2 for k in names},
                                                      sample_inbreeding={k: 0.0 for k in names}, read_group_field=idf, base_error_rate=ERR,
                                                      mapping_quality=mq, skip_duplicates=sd, skip_qcfail=sq, skip_supplementary=ss,
+                                                     ignore_base_phred_scores=not phred,
                                                      info_fields=INFO.DEFAULT_FIELDS, format_fields=FORMAT.DEFAULT_FIELDS)
                             data = prog._locus_data(loc, sample_bams)
                             tag = "letters=%s|mq=%d|skipdup=%s|skipqc=%s|skipsupp=%s|id=%s" % (labels, mq, sd, sq, ss, idf)
@@ -366,12 +396,15 @@ def job_bams(job):
                                 continue
                             env.quiet()
                             want_all = expected(aligns, mq, sd, sq, ss, idf)
+                            wq_all = expected_quals(aligns, mq, sd, sq, ss, idf)
                             r.evaluations += 1
                             for s in names:
                                 if s == "POOL":
                                     rows = list(want_all[keys[0]].values()) + list(want_all[keys[-1]].values())
+                                    qrows = list(wq_all[keys[0]].values()) + list(wq_all[keys[-1]].values())
                                 else:
                                     rows = list(want_all[s].values())
+                                    qrows = list(wq_all[s].values())
                                 if rows and s == names[0]:
                                     r.nontrivial += 1
                                 rcount = len(rows)
@@ -386,15 +419,17 @@ def job_bams(job):
                                                 "(RCOUNT, SNVDP, RCALLS, DP) = %r, filtered pileup gives %r (%s)" % (gotv, (rcount, snvdp, rcalls, dp), tag), payload)
                                 # de-duplicated probabilistic encoding
                                 exp = {}
-                                for c in calls:
+                                for c, qrow in zip(calls, qrows):
                                     rowp = []
                                     for j, x in enumerate(c):
                                         if x < 0:
                                             # no call: NaN on the listed alleles (slots beyond n_alleles are structurally zero)
                                             rowp.append(tuple(-1.0 if k < n_alleles[j] else 0.0 for k in range(3)))  # -1.0 stands for NaN
                                         else:
-                                            v = [ERR / 3 if k < n_alleles[j] else 0.0 for k in range(3)]
-                                            v[x] = 1 - ERR
+                                            # P(call is right) = (1 - error rate) x (1 - 10^(-Q/10)) with Q the summed quality of the agreeing mates
+                                            pc = (1 - ERR) * ((1 - 10 ** (-qrow[j] / 10)) if phred else 1.0)
+                                            v = [(1 - pc) / 3 if k < n_alleles[j] else 0.0 for k in range(3)]
+                                            v[x] = pc
                                             rowp.append(tuple(round(t, 12) for t in v))
                                     exp[tuple(rowp)] = exp.get(tuple(rowp), 0) + 1
                                 gd, gc = data.read_dists[s], data.read_counts[s]
